@@ -70,7 +70,7 @@ class Run:
     # ------------------------------------------------------------------ output
     def write_replays(self):
         paths = []
-        outdir = os.path.join(VERIF_DIR, "out", self.prop)
+        outdir = os.path.join(os.environ.get("VERIF_OUT_DIR") or os.path.join(VERIF_DIR, "out"), self.prop)
         seen = set()
         for sig, case in self.violations:
             if sig in seen:
@@ -113,7 +113,7 @@ class Run:
             "wall_s": round(wall, 2),
             "violations": len({s for s, _ in self.violations}),
         }
-        evdir = os.path.join(VERIF_DIR, "evidence")
+        evdir = os.environ.get("VERIF_EVIDENCE_DIR") or os.path.join(VERIF_DIR, "evidence")  # override: development runs against scratch trees
         os.makedirs(evdir, exist_ok=True)
         with open(os.path.join(evdir, f"{self.prop}.json"), "w", encoding="utf-8") as f:
             json.dump(ev, f, indent=1, ensure_ascii=True, default=str)
